@@ -107,6 +107,9 @@ pub fn rulenew_line(out: &mut impl Write, r: &RawRule) -> bool {
 
 /// a random rule, biased towards the interesting region (near-ties, adjacent months, week 5, February)
 pub fn mk_raw_rule(rng: &mut Rng) -> RawRule {
+    if rng.chance(1, 5) {
+        return mk_special_rule(rng);
+    }
     let std_off = mk_rule_offset(rng);
     let dst_off = if rng.chance(2, 3) { (std_off as i64 + *rng.pick(&[3600i64, 1800, 7200, -3600, 0])).clamp(-89999, 93599) as i32 } else { mk_rule_offset(rng) };
     let std = mk_ltt_flag(rng, std_off, false);
@@ -114,6 +117,93 @@ pub fn mk_raw_rule(rng: &mut Rng) -> RawRule {
     let start = mk_day(rng);
     let end = if rng.chance(1, 3) { near_day(rng, &start) } else { mk_day(rng) };
     RawRule { std, dst, start, start_time: mk_rule_time(rng), end, end_time: mk_rule_time(rng) }
+}
+
+/// legal but unusual rule shapes: transitions pushed across New Year by extreme day times and offsets beyond
+/// 24 h, all-year DST written as `0/0,J365/(24h + x)`, zero-length and one-second DST periods
+pub fn mk_special_rule(rng: &mut Rng) -> RawRule {
+    use tz::timezone::{Julian0WithLeap, Julian1WithoutLeap, MonthWeekDay};
+    let j1 = |n: u16| RuleDay::Julian1WithoutLeap(Julian1WithoutLeap::new(n).unwrap());
+    let j0 = |n: u16| RuleDay::Julian0WithLeap(Julian0WithLeap::new(n).unwrap());
+    match rng.below(4) {
+        3 => {
+            // both transitions pushed into the neighbouring calendar year: early-January days with negative day
+            // times (the whole DST period lies in late December of the year before), or late-December days with
+            // day times beyond 24 h
+            let std_off = (rng.range(-12, 12) * 3600) as i32;
+            let saving = *rng.pick(&[3600i32, 1800, 7200]);
+            let early = rng.chance(1, 2);
+            let day = |rng: &mut Rng| {
+                if early {
+                    match rng.below(3) {
+                        0 => j1(rng.range(1, 3) as u16),
+                        1 => j0(rng.range(0, 2) as u16),
+                        _ => RuleDay::MonthWeekDay(MonthWeekDay::new(1, 1, rng.range(0, 6) as u8).unwrap()),
+                    }
+                } else {
+                    match rng.below(3) {
+                        0 => j1(rng.range(363, 365) as u16),
+                        1 => j0(rng.range(363, 365) as u16),
+                        _ => RuleDay::MonthWeekDay(MonthWeekDay::new(12, 5, rng.range(0, 6) as u8).unwrap()),
+                    }
+                }
+            };
+            let (a, b) = (rng.range(30, 166), rng.range(30, 166));
+            let (lo, hi) = (a.min(b), a.max(b) + 1);
+            let (st, et) = if early { (-hi * 3600, -lo * 3600) } else { (lo * 3600, hi * 3600) };
+            let (st, et) = if rng.chance(1, 5) { (et, st) } else { (st, et) };
+            RawRule { std: mk_ltt_flag(rng, std_off, false), dst: mk_ltt_flag(rng, std_off + saving, true), start: day(rng), start_time: st as i32, end: day(rng), end_time: et as i32 }
+        }
+        0 => {
+            // year-end straddle
+            let big = *rng.pick(&[-89999i32, -89100, -88200, -86401, 86401, 90000, 91800, 93599]);
+            let std_off = if rng.chance(2, 3) { big } else { mk_rule_offset(rng) };
+            let dst_off = (std_off as i64 + *rng.pick(&[1800i64, 3600, 900, -3600])).clamp(-89999, 93599) as i32;
+            let edge_day = |rng: &mut Rng| match rng.below(8) {
+                0 => j1(1),
+                1 => j0(0),
+                2 => j1(365),
+                3 => j0(365),
+                4 => j0(364),
+                5 => RuleDay::MonthWeekDay(MonthWeekDay::new(1, 1, rng.range(0, 6) as u8).unwrap()),
+                6 => RuleDay::MonthWeekDay(MonthWeekDay::new(12, 5, rng.range(0, 6) as u8).unwrap()),
+                _ => j1(*rng.pick(&[2u16, 3, 363, 364])),
+            };
+            let edge_time = |rng: &mut Rng| {
+                let sign = if rng.chance(1, 2) { 1 } else { -1 };
+                sign * match rng.below(4) {
+                    0 => 604799,
+                    1 => 604800 - rng.range(1, 7200) as i32,
+                    2 => 167 * 3600 + 1800,
+                    _ => 604800 - rng.range(1, 90_000) as i32,
+                }
+            };
+            let (start, end) = if rng.chance(1, 2) { (edge_day(rng), mk_day(rng)) } else { (mk_day(rng), edge_day(rng)) };
+            let (st, et) = match rng.below(3) {
+                0 => (edge_time(rng), mk_rule_time(rng)),
+                1 => (mk_rule_time(rng), edge_time(rng)),
+                _ => (edge_time(rng), edge_time(rng)),
+            };
+            RawRule { std: mk_ltt_flag(rng, std_off, false), dst: mk_ltt_flag(rng, dst_off, true), start, start_time: st, end, end_time: et }
+        }
+        1 => {
+            // all-year DST idiom and its neighbours
+            let std_off = (rng.range(-12, 12) * 3600) as i32;
+            let saving = *rng.pick(&[1800i32, 3600, 7200, 10800, 900]);
+            let start = if rng.chance(1, 2) { j0(0) } else { j1(1) };
+            let et = 86400 + *rng.pick(&[3600, saving, 0, 7200, saving - 1, saving + 1]);
+            RawRule { std: mk_ltt_flag(rng, std_off, false), dst: mk_ltt_flag(rng, std_off + saving, true), start, start_time: *rng.pick(&[0, 0, 0, 1, 3600]), end: j1(365), end_time: et }
+        }
+        _ => {
+            // DST of length 0 or 1 s: the same day, times differing by the saving
+            let std_off = mk_rule_offset(rng).clamp(-80000, 80000);
+            let saving = *rng.pick(&[3600i32, 1800, 7200, -3600]);
+            let day = mk_day(rng);
+            let st = (rng.range(-160, 160) * 3600) as i32;
+            let et = st + saving + *rng.pick(&[0, 0, 1, -1]);
+            RawRule { std: mk_ltt_flag(rng, std_off, false), dst: mk_ltt_flag(rng, std_off + saving, true), start: day, start_time: st, end: day, end_time: et }
+        }
+    }
 }
 
 fn mk_ltt_flag(rng: &mut Rng, off: i32, dst: bool) -> LocalTimeType {
@@ -179,14 +269,23 @@ pub fn all_days() -> Vec<RuleDay> {
     v
 }
 
-/// realise a wanted difference `d` as (start_time, end_time) with offsets 0 / 0
-pub fn realise_d(d: i64) -> Option<(i32, i32)> {
-    // d = start_time - end_time (offsets zero); both must lie strictly inside one week
+/// realise a wanted difference `d = (start_time - std) - (end_time - dst)` as (start_time, end_time, std, dst):
+/// with offsets 0 / 0 while both times stay strictly inside one week, else with the times at their limits and
+/// the rest carried by the offsets (legal range -24:59:59 ..= 25:59:59)
+pub fn realise_d(d: i64) -> Option<(i32, i32, i32, i32)> {
     let half = d / 2;
     let st = half;
     let et = half - d;
     if st.abs() < 604800 && et.abs() < 604800 {
-        Some((st as i32, et as i32))
+        return Some((st as i32, et as i32, 0, 0));
+    }
+    let sign = if d > 0 { 1 } else { -1 };
+    let rest = d - sign * 2 * 604799;
+    // rest = dst - std
+    let (std, dst) = if sign > 0 { (-(rest / 2), rest - rest / 2) } else { (-(rest - rest / 2), rest / 2) };
+    let ok = |o: i64| o > -90000 && o < 93600;
+    if ok(std) && ok(dst) {
+        Some(((sign * 604799) as i32, (-sign * 604799) as i32, std as i32, dst as i32))
     } else {
         None
     }
@@ -194,15 +293,23 @@ pub fn realise_d(d: i64) -> Option<(i32, i32)> {
 
 pub fn rulenew_pairs(out: &mut impl Write, rng: &mut Rng, thorough: bool) {
     let days = all_days();
-    let utc = LocalTimeType::new(0, false, Some(b"STD")).unwrap();
-    let dstt = LocalTimeType::new(0, true, Some(b"DST")).unwrap();
+    let mk = |std: i32, dst: i32| (LocalTimeType::new(std, false, Some(b"STD")).unwrap(), LocalTimeType::new(dst, true, Some(b"DST")).unwrap());
+    let line = |out: &mut dyn Write, a: &RuleDay, b: &RuleDay, r: (i32, i32, i32, i32)| {
+        let (s, d) = mk(r.2, r.3);
+        let mut sink: Vec<u8> = Vec::new();
+        rulenew_line(&mut sink, &RawRule { std: s, dst: d, start: *a, start_time: r.0, end: *b, end_time: r.1 });
+        out.write_all(&sink).unwrap();
+    };
+    // the largest |d| the argument ranges allow
+    const D_MAX: i64 = 2 * 604799 + 89999 + 93599;
     let mut ds: Vec<i64> = Vec::new();
     if thorough {
-        for k in -13..=13i64 {
+        for k in -16..=16i64 {
             for e in [-1i64, 0, 1] {
                 ds.push(k * 86400 + e);
             }
         }
+        ds.extend_from_slice(&[D_MAX, -D_MAX, D_MAX - 1, -D_MAX + 1]);
     }
     for (i, a) in days.iter().enumerate() {
         for (j, b) in days.iter().enumerate() {
@@ -210,18 +317,21 @@ pub fn rulenew_pairs(out: &mut impl Write, rng: &mut Rng, thorough: bool) {
                 // every breakpoint of d for a rotating third of the pairs; three random ones for all
                 if (i + j) % 3 == 0 {
                     for &d in &ds {
-                        if let Some((st, et)) = realise_d(d) {
-                            rulenew_line(out, &RawRule { std: utc, dst: dstt, start: *a, start_time: st, end: *b, end_time: et });
+                        if let Some(r) = realise_d(d) {
+                            line(out, a, b, r);
                         }
                     }
                 }
             }
             let picks = if thorough { 3 } else { 1 };
             for _ in 0..picks {
-                let k = rng.range(-13, 13);
-                let d = k * 86400 + rng.range(-1, 1);
-                if let Some((st, et)) = realise_d(d) {
-                    rulenew_line(out, &RawRule { std: utc, dst: dstt, start: *a, start_time: st, end: *b, end_time: et });
+                let d = match rng.below(8) {
+                    0 => *rng.pick(&[D_MAX, -D_MAX, 14 * 86400, -14 * 86400, 14 * 86400 + 1, -14 * 86400 - 1, 15 * 86400, -15 * 86400]),
+                    1 => rng.range(-D_MAX, D_MAX),
+                    _ => rng.range(-16, 16) * 86400 + rng.range(-1, 1),
+                };
+                if let Some(r) = realise_d(d) {
+                    line(out, a, b, r);
                 }
             }
         }
@@ -879,7 +989,24 @@ pub fn find_line(out: &mut impl Write, z: &TimeZoneRef<'_>, f: Fields) -> usize 
                 s.push_str(&found_text(it));
             }
             s.push_str(" ]");
-            format!("{} U {} E {} X {}", s, opt_dt_text(&u), opt_dt_text(&e), opt_dt_text(&x))
+            // companion for the implementation-vs-implementation oracle (C05): the forward lookup's own answer at
+            // every valid result
+            let mut own = String::new();
+            let mut first = true;
+            for it in &l {
+                if let FoundDateTimeKind::Normal(d) = it {
+                    let zz = *z;
+                    let ut = d.unix_time();
+                    let a = guarded(move || match zz.find_local_time_type(ut) {
+                        Ok(t) => ltt_text(t),
+                        Err(e) => err_text(&e),
+                    });
+                    own.push_str(if first { " " } else { " | " });
+                    own.push_str(&a);
+                    first = false;
+                }
+            }
+            format!("{} U {} E {} X {} ## L{}", s, opt_dt_text(&u), opt_dt_text(&e), opt_dt_text(&x), own)
         }
     };
     writeln!(out, "find {} => {}", ftext(&f), ans).unwrap();
@@ -923,7 +1050,7 @@ pub fn findn_line(out: &mut impl Write, z: &TimeZoneRef<'_>, n: usize, f: Fields
         let mut sink: Vec<u8> = Vec::new();
         find_line(&mut sink, &z, f);
         let fl = String::from_utf8_lossy(&sink);
-        let fans = fl.trim_end().splitn(2, " => ").nth(1).unwrap_or("").to_string();
+        let fans = fl.trim_end().splitn(2, " => ").nth(1).unwrap_or("").split(" ## L").next().unwrap_or("").to_string();
         format!("{} ## F {} ## S{}", main, fans, stale_text)
     });
     writeln!(out, "findn {} {} stale {} => {}", n, ftext(&f), ftext(&stale), ans).unwrap();
